@@ -7,6 +7,8 @@ import sys, os, re, ast
 sys.path.insert(0, os.path.dirname(os.path.abspath(__file__)))
 from common import *
 
+OUTPUTS = ['ConfigClasses.v']
+
 HARNESS = os.path.join(VERIF, 'harness')
 
 CODE = r'''
